@@ -160,6 +160,20 @@ def run(F, chk):
                               "%s changes `%s` inside a block that only runs for BSDismemberSkinInstance: with a plain NiSkinInstance "
                               "the partitioning algorithm takes a different course" % (fn["name"], name))
     chk.floor(R2, 3)
+    # ---------------------------------------------------------------- R10.3
+    import c09
+    R3 = chk.rule("R10.3", "when partitions are removed, the collapse map that renumbers the cached triangle->partition assignment is "
+                           "built from the partition count before the partitions are erased")
+    for fn, n, cont, ok in c09.collapse_before_erase(F, {"partitions": "numPartitions"}):
+        if cont != "partitions":
+            continue
+        chk.instance(R3, ok=ok, sample={"fn": fn["name"], "map_sized_by": "numPartitions"})
+        if not ok:
+            chk.violation("R10.3", "C10/R10.3:%s" % fn["name"], where(fn, n),
+                          "%s erases the partitions before it builds the collapse map from numPartitions: cached triangle "
+                          "assignments to higher partitions are not renumbered and point past the partition list" % fn["name"])
+    chk.floor(R3, 1)
+
     chk.assumptions += ["exact cover of triangles, the per-game bone limit and weights summing to one are value-level and not decided"]
     chk.extra["explanation"] = ("only the clause 'the dismember partition list stays aligned with the partitions' is decided "
                                 "(sibling agreement of partition-list edits); everything numeric in C10 is not decided")
